@@ -101,6 +101,12 @@ Theorem C15_cache_missing_key_refuted : exists sp hist a,
 Proof. exact c15_missing_key_refuted. Qed.
 Print Assumptions C15_cache_missing_key_refuted.
 
+Theorem C15_cache_uncond_key_refuted : exists sp hist a,
+  c15_keys_ok sp = false /\
+  fst (fst (c15_call sp (c15_run sp c15_init hist) a)) <> c15_relevant (k_R sp) a.
+Proof. exact c15_uncond_key_refuted. Qed.
+Print Assumptions C15_cache_uncond_key_refuted.
+
 (* the side tables UxDataArray.* reads back belong to the returned object — PARTIAL: only under
    the hypothesis that every conversion so far was made with cache=True; what is missing is the
    general case, which is false for the code as written (next theorem) *)
